@@ -108,9 +108,9 @@ view == <<reps, out, bout, pc, gst, gq, gres, gz, est, list, errs, recs>>
 
 -----------------------------------------------------------------------------
 \* The probe schema.
-Types == {"S", "K", "N", "M", "R", "Rm", "R2", "Rm2", "R3", "Rm3"}
+Types == {"S", "K", "N", "M", "R", "Rm", "R2", "Rm2", "R3", "Rm3", "C", "Cm", "N2", "K2"}
 AllT == Types \cup {"Zz"}              \* "Zz": a typename the schema does not know
-Multi(t) == t \in {"M", "Rm", "Rm2", "Rm3"}          \* @entityResolver(multi: true)
+Multi(t) == t \in {"M", "Rm", "Rm2", "Rm3", "Cm"}          \* @entityResolver(multi: true)
 \* the fields a type's @requires field needs, in SDL order (nn: non-null type):
 \* w: String, n: Int!, l: [String!]
 ReqW == [f |-> "w", nn |-> FALSE]
@@ -121,7 +121,8 @@ Req(t) == CASE t \in {"R", "Rm"} -> <<ReqW>>
             [] t \in {"R3", "Rm3"} -> <<ReqW, ReqN, ReqL>>
             [] OTHER -> << >>
 HasReq(t) == Req(t) # << >>
-BatchRes == {"findManyMByIDs", "findManyMByAlts", "findManyRmByIDs", "findManyRm2ByIDs", "findManyRm3ByIDs"}
+BatchRes == {"findManyMByIDs", "findManyMByAlts", "findManyRmByIDs", "findManyRm2ByIDs", "findManyRm3ByIDs",
+             "findManyCmByPAndQs"}
 
 \* entity resolvers in declaration order (= order of the @key directives), with their key fields;
 \* nn: the key fields are non-null types (unmarshalling a missing / null value FAILS for those,
@@ -137,6 +138,10 @@ Res(t) ==
     [] t = "Rm2" -> << [n |-> "findManyRm2ByIDs", f |-> {"id"}, nn |-> TRUE] >>
     [] t = "R3" -> << [n |-> "findR3ByID", f |-> {"id"}, nn |-> TRUE] >>
     [] t = "Rm3" -> << [n |-> "findManyRm3ByIDs", f |-> {"id"}, nn |-> TRUE] >>
+    [] t = "C"  -> << [n |-> "findCByPAndQ", f |-> {"p", "q"}, nn |-> FALSE] >>
+    [] t = "Cm" -> << [n |-> "findManyCmByPAndQs", f |-> {"p", "q"}, nn |-> FALSE] >>
+    [] t = "N2" -> << [n |-> "findN2ByOAAndOb", f |-> {"o.a", "o.b"}, nn |-> FALSE] >>
+    [] t = "K2" -> << [n |-> "findK2ByBAndC", f |-> {"b", "c"}, nn |-> FALSE], [n |-> "findK2ByA", f |-> {"a"}, nn |-> FALSE] >>
     [] OTHER    -> << >>
 
 \* Representation kinds: t = __typename ("" = missing / not a string), k = status of key fields
@@ -203,6 +208,37 @@ Kind(name) ==
     [] name = "Rm3:3b" -> [t |-> "Rm3", k |-> [id |-> "v"], q |-> [w |-> "v", n |-> "v", l |-> "bad"]]
     [] name = "Rm3:3n" -> [t |-> "Rm3", k |-> [id |-> "v"], q |-> [w |-> "v", n |-> "v", l |-> "null"]]
     [] name = "Rm3:3a" -> [t |-> "Rm3", k |-> [id |-> "v"], q |-> [w |-> "v", n |-> "v", l |-> "absent"]]
+    [] name = "C" -> [t |-> "C", k |-> [p |-> "v", q |-> "v"], q |-> << >>]
+    [] name = "C:vn" -> [t |-> "C", k |-> [p |-> "v", q |-> "null"], q |-> << >>]
+    [] name = "C:nv" -> [t |-> "C", k |-> [p |-> "null", q |-> "v"], q |-> << >>]
+    [] name = "C:nn" -> [t |-> "C", k |-> [p |-> "null", q |-> "null"], q |-> << >>]
+    [] name = "C:va" -> [t |-> "C", k |-> [p |-> "v"], q |-> << >>]
+    [] name = "C:av" -> [t |-> "C", k |-> [q |-> "v"], q |-> << >>]
+    [] name = "C:na" -> [t |-> "C", k |-> [p |-> "null"], q |-> << >>]
+    [] name = "Cm" -> [t |-> "Cm", k |-> [p |-> "v", q |-> "v"], q |-> << >>]
+    [] name = "Cm:vn" -> [t |-> "Cm", k |-> [p |-> "v", q |-> "null"], q |-> << >>]
+    [] name = "Cm:nv" -> [t |-> "Cm", k |-> [p |-> "null", q |-> "v"], q |-> << >>]
+    [] name = "Cm:nn" -> [t |-> "Cm", k |-> [p |-> "null", q |-> "null"], q |-> << >>]
+    [] name = "Cm:va" -> [t |-> "Cm", k |-> [p |-> "v"], q |-> << >>]
+    [] name = "Cm:av" -> [t |-> "Cm", k |-> [q |-> "v"], q |-> << >>]
+    [] name = "Cm:na" -> [t |-> "Cm", k |-> [p |-> "null"], q |-> << >>]
+    [] name = "N2" -> [t |-> "N2", k |-> ("o.a" :> "v" @@ "o.b" :> "v"), q |-> << >>]
+    [] name = "N2:vn" -> [t |-> "N2", k |-> ("o.a" :> "v" @@ "o.b" :> "null"), q |-> << >>]
+    [] name = "N2:nv" -> [t |-> "N2", k |-> ("o.a" :> "null" @@ "o.b" :> "v"), q |-> << >>]
+    [] name = "N2:nn" -> [t |-> "N2", k |-> ("o.a" :> "null" @@ "o.b" :> "null"), q |-> << >>]
+    [] name = "N2:va" -> [t |-> "N2", k |-> ("o.a" :> "v"), q |-> << >>]
+    [] name = "N2:av" -> [t |-> "N2", k |-> ("o.b" :> "v"), q |-> << >>]
+    [] name = "N2:na" -> [t |-> "N2", k |-> ("o.a" :> "null"), q |-> << >>]
+    [] name = "N2:bad" -> [t |-> "N2", k |-> ("o.a" :> "bad" @@ "o.b" :> "bad"), q |-> << >>]
+    [] name = "Kbcn" -> [t |-> "K", k |-> [b |-> "v", c |-> "null"], q |-> << >>]
+    [] name = "Kbnc" -> [t |-> "K", k |-> [b |-> "null", c |-> "v"], q |-> << >>]
+    [] name = "Kbncn" -> [t |-> "K", k |-> [b |-> "null", c |-> "null"], q |-> << >>]
+    [] name = "Kanbcn" -> [t |-> "K", k |-> [a |-> "null", b |-> "v", c |-> "null"], q |-> << >>]
+    [] name = "K2" -> [t |-> "K2", k |-> [a |-> "v", b |-> "v", c |-> "v"], q |-> << >>]
+    [] name = "K2:cn" -> [t |-> "K2", k |-> [a |-> "v", b |-> "v", c |-> "null"], q |-> << >>]
+    [] name = "K2:cn-" -> [t |-> "K2", k |-> [b |-> "v", c |-> "null"], q |-> << >>]
+    [] name = "K2:bncn" -> [t |-> "K2", k |-> [a |-> "v", b |-> "null", c |-> "null"], q |-> << >>]
+    [] name = "K2:ca" -> [t |-> "K2", k |-> [a |-> "v", b |-> "v"], q |-> << >>]
     [] name = "Rmnull" -> [t |-> "Rm", k |-> [id |-> "null"], q |-> [w |-> "v"]]
 AllKinds == {"S", "Smiss", "Snull", "Ka", "Kbc", "Kboth", "Kanull", "Kb",
              "N", "Nbad", "Nmiss", "Mid", "Malt", "Mmiss", "U", "T0",
@@ -211,7 +247,9 @@ AllKinds == {"S", "Smiss", "Snull", "Ka", "Kbc", "Kboth", "Kanull", "Kb",
              "Rm2:1b", "Rm2:1n", "Rm2:1a", "Rm2:2b", "Rm2:2n", "Rm2:2a", "R3", "R3:1b",
              "R3:1n", "R3:1a", "R3:2b", "R3:2n", "R3:2a", "R3:3b", "R3:3n", "R3:3a",
              "Rm3", "Rm3:1b", "Rm3:1n", "Rm3:1a", "Rm3:2b", "Rm3:2n", "Rm3:2a", "Rm3:3b",
-             "Rm3:3n", "Rm3:3a", "Rmnull"}
+             "Rm3:3n", "Rm3:3a", "Rmnull",
+             "C", "C:vn", "C:nv", "C:nn", "C:va", "C:av", "C:na", "Cm", "Cm:vn", "Cm:nv", "Cm:nn", "Cm:va",
+             "Cm:av", "Cm:na", "N2", "N2:vn", "N2:nv", "N2:nn", "N2:va", "N2:av", "N2:na", "N2:bad", "Kbcn", "Kbnc", "Kbncn", "Kanbcn", "K2", "K2:cn", "K2:cn-", "K2:bncn", "K2:ca"}
 ReqKinds == {kn \in AllKinds : Kind(kn).q # << >>}
 
 Null == [r |-> "", i |-> 0, w |-> 0]
@@ -221,16 +259,19 @@ Min(S) == CHOOSE x \in S : \A y \in S : x <= y
 RECURSIVE AscSeq(_)
 AscSeq(S) == IF S = {} THEN << >> ELSE LET m == Min(S) IN <<m>> \o AscSeq(S \ {m})
 
-\* entityResolverNameFor<T>: a resolver is usable for a representation when all of its key
-\* fields are present (nested parents being objects) and not all of them are null.
+\* entityResolverNameFor<T>, exactly as the template does it: a resolver is usable for a
+\* representation iff EVERY leaf of its key is PRESENT in the representation (explicit null counts
+\* as present, a missing leaf or a missing / non-object nested parent does not) and NOT ALL of its
+\* leaves are null. So {aisle:"B", bay:null} is a usable composite key, {aisle:"B"} is not.
 Usable(r, kd) ==
   /\ \A f \in r.f : f \in DOMAIN kd.k /\ kd.k[f] # "bad"
   /\ \E f \in r.f : kd.k[f] = "v"
 UsableIdx(kd) == {j \in 1..Len(Res(kd.t)) : Usable(Res(kd.t)[j], kd)}
 FirstUsable(kd) == IF UsableIdx(kd) = {} THEN 0 ELSE Min(UsableIdx(kd))
-\* the key handed to resolver r for representation i: i's own values when it carries them all,
-\* otherwise an empty / null key (unmarshalling a missing or null value does not fail); 0 = empty key
-KeyIdx(r, kd, i) == IF \A f \in r.f : f \in DOMAIN kd.k /\ kd.k[f] = "v" THEN i ELSE 0
+\* the key handed to resolver r for representation i names i when i carries a value for at least
+\* one of r's key leaves (a usable composite key may have null leaves: the resolver then gets null
+\* for those - which leaves are null is checked by the driver against the kind); 0 = an empty key
+KeyIdx(r, kd, i) == IF \E f \in r.f : f \in DOMAIN kd.k /\ kd.k[f] = "v" THEN i ELSE 0
 
 \* can the values representation kd carries be coerced to its required fields?
 ReqOK(kd) == \A j \in 1..Len(Req(kd.t)) :
